@@ -13,7 +13,8 @@
 //
 // observation (one line): per task, in script order, separated by " ; ":
 //   len=<len(taskChan) right before Send> acc|dis ret=<Send returned> inv=[begin:start:end:val:err|...]
-//   onerr=[err@t,...] get=<val>:<err>@<t> get2=<val>:<err> err=<err>     and finally  # max=<max concurrent handlers>
+//   onerr=[err@t,...] get=<val>:<err>@<t> get2=<val>:<err> err=<err>     and finally
+//   # att=<closures submitted = calls of hook site 3, one per runTaskOnce>  # max=<max concurrent handlers>
 package main
 
 import (
@@ -620,7 +621,9 @@ func runScen(sc *scen) string {
 				showVal(o.getV), showErrOf(o.getE, o.invs), o.getT, showVal(v2), showErrOf(e2, o.invs), showErrOf(e3, o.invs))
 		}
 	}
-	fmt.Fprintf(&sb, " # max=%d", r.maxRun)
+	// attempts whose closure was handed to sendInnerCallback (hook site 3 is passed once per runTaskOnce, by the dispatcher,
+	// right after the submission): the oracle compares it with the number of handler invocations at quiescence
+	fmt.Fprintf(&sb, " # att=%d # max=%d", r.hookCnt[3], r.maxRun)
 	stopPool(pool)
 	return sb.String()
 }
